@@ -206,116 +206,6 @@ def dyFromJds (tbl : List Row) (tol : Rat) (scale : Scale) (j : JD) : Rat :=
   let days := j.jd1 - yearStartJd1 year + j.jd2
   (year : Rat) + days / year2days tbl tol year scale
 
-/-! ### Text formats -/
-
-def digit (n : Nat) : Char := Char.ofNat (48 + n % 10)
-
-/-- zero-padded decimal of a non-negative integer (`%02d`-style; wider numbers are not cut) -/
-def pad (w : Nat) (n : Int) : String :=
-  let s := toString n.toNat
-  String.ofList (List.replicate (w - s.length) '0') ++ s
-
-/-- `strftime` of the four `_dt_fmt` patterns and the two `:sssss` forms -/
-inductive TextFmt | isot | iso | yday | date | yyddd | yyyyddd
-  deriving Repr, DecidableEq
-
-def render (f : TextFmt) (dt : DateTime) : String :=
-  let x := fieldsOf dt
-  let hms := pad 2 x.hour ++ ":" ++ pad 2 x.minute ++ ":" ++ pad 2 x.second ++ "." ++ pad 6 x.micro
-  let ymd := pad 4 x.year ++ "-" ++ pad 2 x.month ++ "-" ++ pad 2 x.day
-  let doy := pad 3 (dayOfYear x.year x.month x.day)
-  -- `(dt - midnight).seconds`: whole seconds since midnight, `str(...).zfill(5)`
-  let sod := pad 5 ((x.hour * 60 + x.minute) * 60 + x.second)
-  match f with
-  | .isot => ymd ++ "T" ++ hms
-  | .iso => ymd ++ " " ++ hms
-  | .yday => pad 4 x.year ++ ":" ++ doy ++ ":" ++ hms
-  | .date => ymd
-  | .yyddd => pad 2 (x.year % 100) ++ ":" ++ doy ++ ":" ++ sod
-  | .yyyyddd => pad 4 x.year ++ ":" ++ doy ++ ":" ++ sod
-
-def natOf? (s : String) : Option Int :=
-  if s.isEmpty || !s.all Char.isDigit then none else s.toNat?.map (fun n => (n : Int))
-
-/-- `"hh:mm:ss"` with optional `".ffffff"` (1..6 digits; longer fractions are outside the model) -/
-def parseHms? (s : String) : Option (Int × Int × Int × Int) :=
-  match s.splitOn "." with
-  | [main] =>
-    match main.splitOn ":" with
-    | [h, m, sec] => do
-      let h ← natOf? h; let m ← natOf? m; let sec ← natOf? sec
-      if h < 24 ∧ m < 60 ∧ sec < 62 then pure (h, m, sec, 0) else none
-    | _ => none
-  | [main, fr] =>
-    match main.splitOn ":" with
-    | [h, m, sec] => do
-      let h ← natOf? h; let m ← natOf? m; let sec ← natOf? sec
-      if fr.length = 0 ∨ fr.length > 6 then none else
-      let us ← natOf? (fr ++ String.ofList (List.replicate (6 - fr.length) '0'))
-      if h < 24 ∧ m < 60 ∧ sec < 62 then pure (h, m, sec, us) else none
-    | _ => none
-  | _ => none
-
-def parseYmd? (s : String) : Option (Int × Int × Int) :=
-  match s.splitOn "-" with
-  | [y, m, d] => do
-    let y ← natOf? y; let m ← natOf? m; let d ← natOf? d
-    if 1 ≤ m ∧ m ≤ 12 ∧ 1 ≤ d ∧ d ≤ 31 then pure (y, m, d) else none
-  | _ => none
-
-/-- `%y`: 69..99 ↦ 19yy, 00..68 ↦ 20yy -/
-def pivotYear (yy : Int) : Int := if yy ≥ 69 then 1900 + yy else 2000 + yy
-
-/-- `strptime` of the patterns (`_str2dt`, `_yds2jd`); seconds of the `:sssss` forms go through
-`timedelta(seconds=float(...))`, i.e. round-half-even to microseconds -/
-def parse? (f : TextFmt) (s : String) : Option DateTime :=
-  match f with
-  | .isot =>
-    match s.splitOn "T" with
-    | [a, b] => do
-      let (y, m, d) ← parseYmd? a; let (h, mi, sec, us) ← parseHms? b
-      pure (ofFields ⟨y, m, d, h, mi, sec, us⟩)
-    | _ => none
-  | .iso =>
-    match s.splitOn " " with
-    | [a, b] => do
-      let (y, m, d) ← parseYmd? a; let (h, mi, sec, us) ← parseHms? b
-      pure (ofFields ⟨y, m, d, h, mi, sec, us⟩)
-    | _ => none
-  | .date => do
-    let (y, m, d) ← parseYmd? s
-    pure (ofFields ⟨y, m, d, 0, 0, 0, 0⟩)
-  | .yday =>
-    match s.splitOn ":" with
-    | [y, doy, h, mi, sec] => do
-      let y ← natOf? y; let doy ← natOf? doy
-      let (h, mi, sec, us) ← parseHms? (h ++ ":" ++ mi ++ ":" ++ sec)
-      pure ((daysFromCivil y 1 1 + doy - 1) * usPerDay + ((h * 60 + mi) * 60 + sec) * usPerSec + us)
-    | _ => none
-  | .yyddd =>
-    match s.splitOn ":" with
-    | [y, doy, sec] => do
-      if y.length ≠ 2 ∨ doy.length ≠ 3 then none else
-      let y ← natOf? y; let doy ← natOf? doy; let sec ← natOf? sec
-      pure ((daysFromCivil (pivotYear y) 1 1 + doy - 1) * usPerDay + sec * usPerSec)
-    | _ => none
-  | .yyyyddd =>
-    match s.splitOn ":" with
-    | [y, doy, sec] => do
-      if y.length ≠ 4 ∨ doy.length ≠ 3 then none else
-      let y ← natOf? y; let doy ← natOf? doy; let sec ← natOf? sec
-      pure ((daysFromCivil y 1 1 + doy - 1) * usPerDay + sec * usPerSec)
-    | _ => none
-
-/-- what survives `parse? f (render f dt)`: the datetime truncated to the resolution the pattern
-prints (microseconds, whole seconds, whole days) -/
-def truncTo (f : TextFmt) (dt : DateTime) : DateTime :=
-  match f with
-  | .isot | .iso | .yday => dt
-  | .date => (dt / usPerDay) * usPerDay
-  | .yyddd | .yyyyddd => (dt / usPerSec) * usPerSec
-
-def textFromJds (f : TextFmt) (j : JD) : String := render f (dtFromJds j)
-def textToJds (f : TextFmt) (s : String) : Option JD := (parse? f s).map dtToJds
+/-! ### Text formats: see `Model/TimeText.lean` (render / parse on `List Char`) -/
 
 end Midgard.TimeFormat
